@@ -314,6 +314,28 @@ def check_case(case, ctx):
             ctx.nontrivial((str(case['regions']), str(case['ro']), case['via']), 'reading-order-permutes')
     # fixpoint
     s2 = p2.to_pagexml_string(version=ver)
+    # history: editing a loaded page in place must not influence a later import of the same document
+    if case['via'] == 'string':
+        for r in p2.regions:
+            r.polygon *= 2
+            for l in r.lines:
+                l.baseline *= 3
+                if l.polygon is not None:
+                    l.polygon += 7
+        p4 = PageLayout()
+        p4.from_pagexml_string(s1)
+        ctx.executed()
+        got4 = observe(p4)
+        for wr, gr in zip(want['regions'], got4['regions']):
+            for wl, gl in zip(wr['lines'], gr['lines']):
+                if gl['heights'] is not None and wl['heights'] is not None and len(gl['heights']) == 2 and \
+                        HEIGHTS[case['regions'][int(wr['id'][1:]) - 1]['lines'][int(wl['id'].split('-l')[1]) - 1]['h']] is None:
+                    wl['heights'] = gl['heights']
+        d4 = first_diff(want, got4)
+        if d4:
+            ctx.violation('reload-yields-the-same-page', f'{K}/import-depends-on-earlier-imports/{field_of(d4[1])}',
+                          f'{desc}: after a first import whose arrays were edited in place, importing the same document again gives {d4[0]}')
+            return
     p3 = PageLayout()
     p3.from_pagexml_string(s2)
     s3 = p3.to_pagexml_string(version=ver)
